@@ -131,6 +131,42 @@ def build(lang, k, L, m, placement, deco, start=1, nfiles=2):
     return files, occ, run
 
 
+def build_whole(lang, L, m, deco):
+    """Each occurrence is a whole file whose entire code is exactly the run (nothing else)."""
+    run = POOL[lang][1 : 1 + L]
+    files, occ = {}, []
+    for fi in range(max(m, 2)):
+        head = []
+        if deco == "header":
+            head = (['"""Module %d."""' % fi, "", "import os", ""] if lang == "py" else ["/** Module %d. */" % fi, "", "import * as os from 'os';", ""])
+        if fi < m:
+            body = list(run)
+            occ.append((f"f{fi}{EXT[lang]}", len(head) + 1, len(head) + L))
+        else:
+            body = [_uniq(lang, 100 * fi + j) for j in range(L)]
+        files[f"f{fi}{EXT[lang]}"] = "\n".join(head + body) + "\n"
+    return files, occ, run
+
+
+def build_periodic(lang, k, reps, m):
+    """One statement repeated `reps` times in a row (k < reps < 2k): its k-line windows overlap
+    themselves, so one such place alone contains no two disjoint copies of anything."""
+    stmt = POOL[lang][3]
+    ind = "    " if lang == "py" else "  "
+    files, occ = {}, []
+    n = itertools.count(1)
+    for fi in range(max(m, 2)):
+        lines = [_fn_open(lang, f"handler_{next(n)}"), ind + _uniq(lang, next(n)), ind + _uniq(lang, next(n))]
+        if fi < m:
+            first = len(lines) + 1
+            lines += [ind + stmt] * reps
+            occ.append((f"f{fi}{EXT[lang]}", first, len(lines)))
+        lines.append(ind + _uniq(lang, next(n)))
+        lines += [ind + "return counter"] if lang == "py" else [ind + "return counter;", "}"]
+        files[f"f{fi}{EXT[lang]}"] = "\n".join(lines) + "\n"
+    return files, occ, [stmt] * reps
+
+
 # ------------------------------------------------------------------ independent normaliser
 
 
@@ -201,6 +237,7 @@ def items(tier: str, seed: int):
                 combos.append((k, L, m, pl, deco, mo))
         for block in chunks(combos, 40):
             out.append({"kind": "plants", "lang": lang, "combos": block})
+        out.append({"kind": "shapes", "lang": lang, "ks": list(ks)})
     return out
 
 
@@ -294,6 +331,17 @@ def run_item(item) -> Acc:
                 acc.fail({"mode": "simplest-duplicate-not-found", "lang": lang}, {"lang": lang, "k": 3, "L": 3, "m": 2, "placement": "two-files", "decoration": "plain", "min_occurrences": 2, "files": files}, "two violations", vs)
         return acc
     lang = item["lang"]
+    if item["kind"] == "shapes":
+        for k in item["ks"]:
+            for L, m, deco, mo in itertools.product((k - 1, k, k + 1), (1, 2, 3), ("plain", "header"), (2, 3)):
+                files, occ, run = build_whole(lang, L, m, deco)
+                vs, r, rootstr = _lint(files, k, mo)
+                _judge(acc, lang, files, occ, run, k, L, m, "whole-file", deco, mo, vs, r, rootstr)
+            for reps, m, mo in itertools.product(sorted({k + 1, 2 * k - 1}), (1, 2), (2, 3)):
+                files, occ, run = build_periodic(lang, k, reps, m)
+                vs, r, rootstr = _lint(files, k, mo)
+                _judge(acc, lang, files, occ, run, k, reps, m, "periodic", "plain", mo, vs, r, rootstr)
+        return acc
     for (k, L, m, pl, deco, mo) in item["combos"]:
         files, occ, run = build(lang, k, L, m, pl, deco, nfiles=3 if m == 3 and pl == "two-files" else 2)
         vs, r, rootstr = _lint(files, k, mo)
@@ -315,7 +363,12 @@ def replay_case(case) -> list[dict]:
     r = obs.cli_subprocess(["dry", "--format", "json", "."], root)
     print(f"config {cfg}\nexit={r['exit_code']}\n{r['stdout'][:1500]}")
     remove(root)
-    fs2, occ, run = build(case["lang"], case["k"], case["L"], case["m"], case["placement"], case["decoration"], nfiles=3 if case["m"] == 3 and case["placement"] == "two-files" else 2)
+    if case["placement"] == "whole-file":
+        fs2, occ, run = build_whole(case["lang"], case["L"], case["m"], case["decoration"])
+    elif case["placement"] == "periodic":
+        fs2, occ, run = build_periodic(case["lang"], case["k"], case["L"], case["m"])
+    else:
+        fs2, occ, run = build(case["lang"], case["k"], case["L"], case["m"], case["placement"], case["decoration"], nfiles=3 if case["m"] == 3 and case["placement"] == "two-files" else 2)
     vs, r2, rootstr = _lint(fs2, case["k"], case["min_occurrences"])
     _judge(acc, case["lang"], fs2, occ, run, case["k"], case["L"], case["m"], case["placement"], case["decoration"], case["min_occurrences"], vs, r2, rootstr)
     return acc.failures
